@@ -6,7 +6,9 @@ GO=go1.26.8; command -v $GO >/dev/null || GO=/opt/veriftools/go1.26.8/bin/go
 SCR=/var/tmp/verif-setup-$$
 trap 'rm -rf "$SCR"' EXIT
 mkdir -p "$SCR" /verif/bin /verif/evidence
+( cd /verif/instrument && $GO build -o /verif/bin/pegsim-instrument . ) || { echo "setup: cannot build pegsim-instrument"; exit 1; }
 rsync -a --exclude .git /repo/ "$SCR/repo/"
+SIMRT_DIR=/verif/pegsim/simrt /verif/bin/pegsim-instrument "$SCR/repo" > "$SCR/instrument.json" || { echo "setup: instrumentation failed"; exit 1; }
 sed "s#=> /var/tmp/pegsim-scratch/repo#=> $SCR/repo#; s#=> ./simrt#=> /verif/pegsim/simrt#" /verif/pegsim/go.mod > "$SCR/go.mod"
 cp /verif/pegsim/go.sum "$SCR/go.sum"
 ( cd /verif/pegsim && $GO test -c -tags verif -modfile="$SCR/go.mod" -o "$SCR/pegsim.test" ./h ) > "$SCR/build.log" 2>&1
